@@ -375,8 +375,13 @@ void spki_cb(struct spki_table *, const spki_record rec, const bool added)
 void check_stopped_socket(World &W, int si, const char *when)
 {
 	sim_nopreempt_begin();
+	simalloc_pause(1);
 	struct End {
-		~End() { sim_nopreempt_end(); }
+		~End()
+		{
+			simalloc_pause(0);
+			sim_nopreempt_end();
+		}
 	} end_guard;
 	std::set<PfxRec> ap = of_src(actual_pfx_all(W), si);
 	std::set<SpkiRec> as = of_src(actual_spki_all(W), si);
@@ -698,7 +703,9 @@ static void oracle_on_query_locked(World &W, Peer &p, Exchange &x);
 void oracle_on_query(World &W, Peer &p, Exchange &x)
 {
 	sim_nopreempt_begin();
+	simalloc_pause(1);
 	oracle_on_query_locked(W, p, x);
+	simalloc_pause(0);
 	sim_nopreempt_end();
 }
 
@@ -865,7 +872,9 @@ void sync_exit(World &W, int si, int rc)
 {
 	// audits are atomic with respect to the other simulated tasks (no voluntary switch inside)
 	sim_nopreempt_begin();
+	simalloc_pause(1);
 	sync_exit_locked(W, si, rc);
+	simalloc_pause(0);
 	sim_nopreempt_end();
 }
 
@@ -895,6 +904,10 @@ void sync_exit_locked(World &W, int si, int rc)
 		view.at_query.version = b.version;
 	Walk w = walk_exchange(view, from == 0);
 	int faults_now = x.faults_fired - p.sync_faults_before;
+	// C18: an allocation failed inside this call: the response may fail (then the failure clause applies) or still succeed
+	bool alloc_failed = simalloc_failures() != p.sync_allocfail_before;
+	if (alloc_failed)
+		W.ctx.count("probe_alloc_failure_inside_sync");
 	bool reentered = x.sync_calls > 1;
 	W.ctx.count(std::string("walk_") + WK[w.kind] + (w.kind == WK_FAIL || w.kind == WK_INCOMPLETE ? "_" + w.why : ""));
 	if (faults_now)
@@ -1005,7 +1018,7 @@ void sync_exit_locked(World &W, int si, int rc)
 			sim_wake(SIM_W_USER, &W);
 		}
 	} else {
-		if (w.kind == WK_OK && !must_fail && !w.either && !reentered && !W.hostile) {
+		if (w.kind == WK_OK && !must_fail && !w.either && !reentered && !W.hostile && !alloc_failed) {
 			W.ctx.viol("C03", "valid-response-rejected", std::string("C03:rejected-valid:") + (x.qtype == PDU_RESET_QUERY ? "reset" : "delta"),
 				   "socket %d: an entirely valid %s (%u payload PDUs, no fault) did not end successfully (state %d)", si,
 				   x.qtype == PDU_RESET_QUERY ? "reset response" : "incremental update", w.n_payload, (int)sock.state);
@@ -1032,7 +1045,7 @@ void sync_exit_locked(World &W, int si, int rc)
 		// already delivered its End of Data; the statements leave open whether its intervals count, so both are accepted.
 		if (sock.refresh_interval != b.refresh || sock.retry_interval != b.retry || sock.expire_interval != b.expire) {
 			Belief t = b;
-			if (w.kind == WK_FAIL && (w.why == "dup" || w.why == "unk" || w.why == "flags"))
+			if ((w.kind == WK_FAIL && (w.why == "dup" || w.why == "unk" || w.why == "flags")) || (w.kind == WK_OK && alloc_failed))
 				expected_intervals(W.iv_mode, w.has_iv, w.iv, t);
 			if (sock.refresh_interval == t.refresh && sock.retry_interval == t.retry && sock.expire_interval == t.expire) {
 				W.ctx.count("probe_intervals_taken_from_failed_response");
@@ -1081,7 +1094,7 @@ void sync_exit_locked(World &W, int si, int rc)
 		}
 		// C14: error report for the violation a correct client detects
 		bool writable = p.open && !(p.peer_closed) && x.faults_fired == 0 && !x.scripted_faults;
-		if (!reentered)
+		if (!reentered && !alloc_failed) // (after an allocation failure the client may never have reached the offending PDU)
 			check_error_report(W, p, x, w, view.bytes, writable);
 	}
 	if (rc == RTR_SUCCESS && w.downgraded)
@@ -1156,6 +1169,7 @@ extern "C" int __wrap_rtr_sync(struct rtr_socket *s)
 	p.sync_enter_consumed = p.consumed;
 	p.sync_faults_before = p.cur_x >= 0 ? p.xs[(size_t)p.cur_x].faults_fired : 0;
 	p.cb_add = p.cb_del = 0;
+	p.sync_allocfail_before = simalloc_failures();
 	int win = -1;
 	if (W->c06 && p.cur_x >= 0 && p.xs[(size_t)p.cur_x].qtype == PDU_RESET_QUERY && p.xs[(size_t)p.cur_x].sync_calls == 0 &&
 	    (!W->model_pfx[(size_t)si].empty() || !W->model_spki[(size_t)si].empty())) {
@@ -1240,6 +1254,10 @@ uint64_t table_digest(World &W)
 
 void final_checks_after_stop(World &W)
 {
+	simalloc_pause(1);
+	struct End {
+		~End() { simalloc_pause(0); }
+	} end_guard;
 	std::set<PfxRec> allp = actual_pfx_all(W);
 	std::set<SpkiRec> alls = actual_spki_all(W);
 	W.ctx.count("stop_audits");
@@ -1799,6 +1817,21 @@ void run_world(const J &plan, RunCtx &ctx)
 			if (W.peers[(size_t)i].started)
 				check_stopped_socket(W, i, "mgr-stop");
 		final_checks_after_stop(W);
+	}
+	{
+		// allocations per scripted exchange of cache 0 (for the k-th-allocation-fails sweep of C18)
+		J sites = J::arr();
+		const Peer &p0 = W.peers[0];
+		for (size_t i = 0; i < p0.xs.size(); i++) {
+			if (p0.xs[i].script_index < 0)
+				continue;
+			uint64_t end = i + 1 < p0.xs.size() ? p0.xs[i + 1].alloc_at_query : simalloc_calls();
+			J s = J::arr();
+			s.push(p0.xs[i].script_index);
+			s.push((long long)(end - p0.xs[i].alloc_at_query));
+			sites.push(s);
+		}
+		ctx.extra["alloc_sites"] = sites;
 	}
 	uint64_t nx = 0;
 	for (auto &p : W.peers)
